@@ -360,7 +360,7 @@ def run(ctx):
     rng = ctx.rng
     N = lambda p: ir.serde.serialize_model(ir.serde.deserialize_model(p))  # noqa: E731
     rules_some = list(_no_op.rules) + list(_fuse_relus_clips.rules)
-    n_models = 24 if ctx.tier == "quick" else 300
+    n_models = 24 if ctx.tier == "quick" else 96
     kinds = ["inert", "inert", "active", "active", "functions", "replace"]
     models = []
     for i in range(n_models):
@@ -544,7 +544,7 @@ def run(ctx):
                     tf = with_nodes_by_name(gm.tree_of(onnx, result_p))
                     tc = carriers(tn, tf)
                     api_no += 1
-                    in_coq = ctx.tier == "thorough" or (api_no + info["idx"]) % 4 == 0
+                    in_coq = (api_no + info["idx"]) % (2 if ctx.tier == "thorough" else 4) == 0
                     check_inclusion(f"carriers<=f(M):{name}", info, tc, tf, rep, in_coq)
         ctx.sample({"model": models[0][1], "apis": sorted(api_counts)})
 
